@@ -46,7 +46,7 @@ def install(reg):
             ("C20-headers-need-trusted_proxy", "implies(self.trusted_proxy is None, not old(bool(self.trusted_proxy_headers)))"),
             ("C20-only-known-header-kinds", "old(only_known_kinds(self.trusted_proxy_headers))"),
             ("C20-forwarded-excludes-x-forwarded", "not old(forwarded_mixed(self.trusted_proxy_headers))"),
-            ("count-defaults-to-one", "self.trusted_proxy_count is not None"),
+            ("C20-count-defaults-to-one", "self.trusted_proxy_count is not None"),
         ]),
     ]
     con.only_segments = [0, 2]
